@@ -1,36 +1,275 @@
-import FunModel.Stream
+import FunProofs.Stream
 
-/-! C02 — placeholder until FunProofs/Stream.lean lands -/
+/-! C02 — sequential iterator pipelines are order preserving and agree with the pure list functions.
+
+    Any composition of the order-preserving operations (`Filter`, `Transform`/`Map`, `Join`, `Chain`,
+    the goroutine-backed identity stages, `Uniq`, `DropZeroValues`, `Indexed`, `MergeSlices`, the JSON
+    round trip) yields exactly the sequence obtained by applying the corresponding pure list
+    functions to the inputs, truncated at the first element for which a user function returns a
+    non-skip error; `ErrIteratorSkip` removes exactly that element; once `ReadOne` has returned an
+    error the iterator yields nothing further.
+
+    KNOWN DEVIATION (modelled faithfully, see `join_continues_after_failure`): `Join`/`Chain` keep
+    reading the NEXT operand after an operand failed with a user error, because the operand iterator
+    turns the error into EOF. The agreement theorem is therefore stated under `NoInnerFailure`.
+
+    Property theorems only. The functional specification (`spec`, `applyFn`/`applyFnE`, `valsSkip`,
+    `stopEv`, `dedupeFirst`, `enumerate`, `concatStop`, `NoInnerFailure`, `injErrs`, `reduceErr`,
+    `okFin`, `tailOf`) and the helper lemmas are in `FunProofs/Stream.lean`. -/
+
 namespace FunModel.C02
 open FunModel.Stream
 
+/-! ### 1. sticky errors and the shape of an iterator's call stream -/
+
 /-- once ReadOne has returned an error the iterator yields nothing further: the call stream of an
-    iterator never has a value after a non-value -/
-theorem readOne_sticky (s : S) : ∀ pre post e, (readOne s).1 = pre ++ e :: post → (∀ a, e ≠ .val a) → post = [] := by
-  induction s with
-  | nil => intro pre post e h; simp [readOne] at h
-  | cons x r ih =>
-    intro pre post e h he
-    cases x with
-    | val a =>
-      simp only [readOne] at h
-      cases pre with
-      | nil => simp at h; exact absurd h.1.symm (he a)
-      | cons p pre' =>
-        simp only [List.cons_append, List.cons.injEq] at h
-        exact ih pre' post e h.2 he
-    | skip => simp only [readOne] at h; exact ih pre post e h he
-    | eof => simp only [readOne] at h; cases pre with
-      | nil => simp at h; exact h.2
-      | cons p pre' => simp at h
-    | abort => simp only [readOne] at h; cases pre with
-      | nil => simp at h; exact h.2
-      | cons p pre' => simp at h
-    | ctx => simp only [readOne] at h; cases pre with
-      | nil => simp at h; exact h.2
-      | cons p pre' => simp at h
-    | err n => simp only [readOne] at h; cases pre with
-      | nil => simp at h; exact h.2
-      | cons p pre' => simp at h
+    iterator never has anything after a non-value -/
+theorem readOne_sticky (s : S) :
+    ∀ pre post e, (readOne s).1 = pre ++ e :: post → (∀ a, e ≠ .val a) → post = [] :=
+  Stream.readOne_sticky s
+
+/-- the call stream of an iterator over ANY raw stream: its values with the skips dropped, then at
+    most one terminating event (`eof`, `abort`, `ctx`; an `err` is reported as `eof`) -/
+theorem iter_shape (s : S) : iter s = (valsSkip s).map .val ++ tailOf (stopEv s) :=
+  iter_eq s
+
+/-- `Iterator()` over the `ReadOne` of an iterator changes nothing -/
+theorem iter_idem (s : S) : iter (iter s) = iter s := Stream.iter_idem s
+
+/-- every pipeline's stream is its values followed by at most one non-value event -/
+theorem denote_shape (op : Op) :
+    denote op = (vals (denote op)).map .val ∨
+      ∃ t, (t = .eof ∨ t = .abort ∨ t = .ctx) ∧ denote op = (vals (denote op)).map .val ++ [t] := by
+  have h := denote_eq op
+  rcases tailOf_cases (stopEv (denote op)) with h' | h' | h' | h' <;> rw [h'] at h
+  · exact Or.inl (by simpa using h)
+  · exact Or.inr ⟨.eof, by simp, h⟩
+  · exact Or.inr ⟨.abort, by simp, h⟩
+  · exact Or.inr ⟨.ctx, by simp, h⟩
+
+/-- `readOne_sticky` for pipelines -/
+theorem denote_sticky (op : Op) (pre post : S) (e : Ev) (h : denote op = pre ++ e :: post)
+    (he : ∀ a, e ≠ .val a) : post = [] := by
+  rw [← denote_iter op] at h
+  exact Stream.readOne_sticky (denote op) pre post e h he
+
+/-! ### 2. one lemma per combinator -/
+
+/-- an iterator yields the values of the raw stream with skips retried, up to the first other
+    non-value result -/
+theorem vals_iter (s : S) : vals (iter s) = valsSkip s := Stream.vals_iter s
+
+theorem vals_filterS (p : Int → Bool) (s : S) : vals (filterS p s) = (vals s).filter p :=
+  Stream.vals_filterS p s
+
+/-- `Transform`: the user function applied in order (call counter `n`), skips of the source retried -/
+theorem vals_transformS (f : Fn) (n : Nat) (s : S) :
+    vals (transformS f n s) = (applyFn f n (valsSkip s)).1 :=
+  Stream.vals_transformS f n s
+
+/-- `Join`: the values of the first operand, then — only if it ended by exhaustion / `io.EOF` — those
+    of the second -/
+theorem vals_joinS (a b : S) :
+    vals (joinS a b) = valsSkip a ++ (if okFin (stopEv a) then valsSkip b else []) :=
+  Stream.vals_joinS a b
+
+theorem vals_pipeS (s : S) : vals (pipeS s) = vals s := Stream.vals_pipeS s
+
+theorem vals_chainS (ss : List S) : vals (chainS ss) = ss.flatMap vals := Stream.vals_chainS ss
+
+theorem vals_uniqS (s : S) : vals (uniqS s) = dedupeFirst (vals s) := Stream.vals_uniqS s
+
+theorem vals_dropZeroS (s : S) : vals (dropZeroS s) = (vals s).filter (fun x => x != 0) :=
+  Stream.vals_dropZeroS s
+
+theorem vals_indexedS (n : Nat) (s : S) :
+    vals (indexedS n s) = ((vals s).zipIdx n).map (fun p => (p.2 : Int) * 1000 + p.1) :=
+  Stream.vals_indexedS n s
+
+theorem vals_mergeSlicesS (sls : List (List Int)) : vals (mergeSlicesS sls) = sls.flatten :=
+  Stream.vals_mergeSlicesS sls
+
+/-- `dedupeFirst` really is "keep the first occurrence": same elements, no duplicates -/
+theorem dedupeFirst_spec (xs : List Int) :
+    (dedupeFirst xs).Nodup ∧ ∀ y, y ∈ dedupeFirst xs ↔ y ∈ xs :=
+  ⟨dedupeFirst_nodup xs, mem_dedupeFirst xs⟩
+
+/-- `applyFn` is `applyFnE` with the stopping event forgotten -/
+theorem applyFn_eq (f : Fn) (n : Nat) (xs : List Int) :
+    applyFn f n xs = ((applyFnE f n xs).1, (applyFnE f n xs).2.isSome) := rfl
+
+/-- a user function without injected results is `map` and never fails -/
+theorem applyFn_pure (f : Fn) (h : f.inj = []) (n : Nat) (xs : List Int) :
+    applyFn f n xs = (xs.map (fun x => x * f.mul + f.add), false) :=
+  applyFn_of_inj_nil f h n xs
+
+/-! ### 3. pipelines agree with the functional specification -/
+
+/-- the agreement theorem (partial: see `join_continues_after_failure`) -/
+theorem pipeline_eq_spec_partial (op : Op) (h : NoInnerFailure op = true) :
+    vals (denote op) = (spec op).1 :=
+  (rel_denote op h).1
+
+/-- ... and unless the specification reports a failure the stream ends by exhaustion or `io.EOF` -/
+theorem pipeline_tail_partial (op : Op) (h : NoInnerFailure op = true) (hf : (spec op).2 = false) :
+    denote op = (spec op).1.map .val ∨ denote op = (spec op).1.map .val ++ [.eof] := by
+  have hr := rel_denote op h
+  have hd := denote_eq op
+  rw [hr.1] at hd
+  have hk := hr.2.2 hf
+  cases hs : stopEv (denote op) with
+  | none => rw [hs] at hd; exact Or.inl (by simpa [tailOf] using hd)
+  | some t =>
+    rw [hs] at hd hk
+    cases t with
+    | eof => exact Or.inr hd
+    | val a => exact absurd hs (stopEv_ne_val _ a)
+    | skip => exact absurd hs (stopEv_ne_skip _)
+    | _ => simp at hk
+
+/-- the deviation: after the first operand of `Join` failed with a user error the next operand is
+    still read, whereas the specification stops -/
+theorem join_continues_after_failure :
+    vals (denote (.join (.map {mul := 10, inj := [(1, .err 7)]} (.slice [1, 2, 3])) [.slice [7, 8]]))
+        = [10, 7, 8] ∧
+      spec (.join (.map {mul := 10, inj := [(1, .err 7)]} (.slice [1, 2, 3])) [.slice [7, 8]])
+        = ([10], true) := by
+  decide
+
+/-- the same for `itertool.Chain` -/
+theorem chain_continues_after_failure :
+    vals (denote (.chain [.map {mul := 10, inj := [(1, .err 7)]} (.slice [1, 2, 3]), .slice [7, 8]]))
+        = [10, 7, 8] ∧
+      spec (.chain [.map {mul := 10, inj := [(1, .err 7)]} (.slice [1, 2, 3]), .slice [7, 8]])
+        = ([10], true) := by
+  decide
+
+/-- unconditionally (no `NoInnerFailure`): the specified values are a PREFIX of what the pipeline
+    yields — the deviation only ever adds values after a failed `Join`/`Chain` operand, it never
+    drops, reorders or alters the values the specification promises -/
+theorem spec_prefix_of_pipeline (op : Op) : (spec op).1 <+: vals (denote op) := by
+  have h := pre_denote op
+  rw [h.1]; exact h.2.1
+
+/-- unconditionally: if no user function / generator failed anywhere, the pipeline yields exactly
+    the specified values and ends by exhaustion or `io.EOF` -/
+theorem pipeline_eq_spec_of_not_failed (op : Op) (hf : (spec op).2 = false) :
+    vals (denote op) = (spec op).1 ∧
+      (denote op = (spec op).1.map .val ∨ denote op = (spec op).1.map .val ++ [.eof]) := by
+  have h := pre_denote op
+  have hv : vals (denote op) = (spec op).1 := by rw [h.1]; exact (h.2.2 hf).1
+  refine ⟨hv, ?_⟩
+  have hd := denote_eq op
+  rw [hv] at hd
+  have hk := (h.2.2 hf).2
+  cases hs : stopEv (denote op) with
+  | none => rw [hs] at hd; exact Or.inl (by simpa [tailOf] using hd)
+  | some t =>
+    rw [hs] at hd hk
+    cases t with
+    | eof => exact Or.inr hd
+    | val a => exact absurd hs (stopEv_ne_val _ a)
+    | skip => exact absurd hs (stopEv_ne_skip _)
+    | _ => simp at hk
+
+/-- `ErrIteratorSkip` removes exactly the element it was returned for -/
+theorem skip_removes_exactly_one (f : Fn) (k : Nat) (xs : List Int) (hf : f.inj = [(k, .skip)]) :
+    vals (denote (.map f (.slice xs))) = (xs.eraseIdx k).map (fun x => x * f.mul + f.add) := by
+  rw [pipeline_eq_spec_partial _ rfl]
+  simp only [spec]
+  rw [applyFn_single_skip f k hf 0 xs (Nat.zero_le k)]
+  rfl
+
+/-- ... so exactly one element is missing when the skipped call happens -/
+theorem skip_removes_exactly_one_length (f : Fn) (k : Nat) (xs : List Int) (hf : f.inj = [(k, .skip)])
+    (hk : k < xs.length) : (vals (denote (.map f (.slice xs)))).length + 1 = xs.length := by
+  rw [skip_removes_exactly_one f k xs hf, List.length_map, List.length_eraseIdx]
+  simp [hk]; omega
+
+/-- any other non-value result of the user function truncates the sequence at that element, and
+    the specification reports the failure iff the call happened -/
+theorem error_truncates (f : Fn) (k : Nat) (e : Ev) (xs : List Int) (hf : f.inj = [(k, e)])
+    (h1 : ∀ b, e ≠ .val b) (h2 : e ≠ .skip) :
+    vals (denote (.map f (.slice xs))) = (xs.take k).map (fun x => x * f.mul + f.add) ∧
+      (spec (.map f (.slice xs))).2 = decide (k < xs.length) := by
+  rw [pipeline_eq_spec_partial _ rfl]
+  simp only [spec]
+  rw [applyFn_single_stop f k e hf h1 h2 0 xs (Nat.zero_le k)]
+  simp
+
+/-! ### 4. consumers -/
+
+theorem count_eq_spec (op : Op) (h : NoInnerFailure op = true) :
+    countS (denote op) = (spec op).1.length := by
+  unfold countS; rw [pipeline_eq_spec_partial op h]
+
+theorem json_eq_spec (op : Op) (h : NoInnerFailure op = true) :
+    jsonS (denote op) = "[" ++ ",".intercalate ((spec op).1.map toString) ++ "]" := by
+  unfold jsonS; rw [pipeline_eq_spec_partial op h]
+
+/-- `Reduce` with the summing reducer `f` over any stream: the sum of the values `f` produces for the
+    values read before the iterator's first error, up to the first non-skip/non-value result of `f`;
+    the error returned is that result if it is `ctx` (as 0) or `err e` (as `e`); `eof`/`abort` of
+    the reducer, and every error of the iterator, end the fold without an error -/
+theorem reduceGo_spec (f : Fn) (n : Nat) (acc : Int) (s : S) :
+    reduceGo f n acc s =
+      (acc + ((applyFnE f n (vals s)).1).sum, reduceErr (applyFnE f n (vals s)).2) :=
+  reduceGo_eq f n acc s
+
+theorem reduce_eq_spec (f : Fn) (op : Op) (h : NoInnerFailure op = true) :
+    reduceGo f 0 0 (denote op) =
+      (((applyFn f 0 (spec op).1).1).sum, reduceErr (applyFnE f 0 (spec op).1).2) := by
+  rw [reduceGo_eq, pipeline_eq_spec_partial op h]
+  simp [applyFn]
+
+/-- `Reduce` returns an error only if the reducer failed -/
+theorem reduce_error_only_if_failed (f : Fn) (op : Op) (h : NoInnerFailure op = true) (e : Nat)
+    (he : (reduceGo f 0 0 (denote op)).2 = some e) : (applyFn f 0 (spec op).1).2 = true := by
+  rw [reduce_eq_spec f op h] at he
+  simp only [applyFn]
+  cases hs : (applyFnE f 0 (spec op).1).2 with
+  | none => rw [hs] at he; simp [reduceErr] at he
+  | some t => rfl
+
+/-! ### 5. `Close()` reports only injected errors -/
+
+theorem closeErrs_sound (op : Op) (e : Nat) (h : e ∈ closeErrs op) : e ∈ injErrs op :=
+  closeErrs_sub op e h
+
+/-! ### 6. non-vacuity -/
+
+/-- a depth-3 pipeline with duplicates, zeros, a skip, LIFO and enumeration -/
+def ex1 : Op :=
+  .uniq (.dropZero (.join
+    (.map {mul := 2, inj := [(1, .skip)]} (.slice [1, 0, 2, 2]))
+    [.filter 2 0 (.slice [0, 4, 4, 6, 3]), .indexed (.stack [5, 0])]))
+
+example : NoInnerFailure ex1 = true := by decide
+example : denote ex1 = [.val 2, .val 4, .val 6, .val 1005, .eof] := by decide
+example : spec ex1 = ([2, 4, 6, 1005], false) := by decide
+example : closeErrs ex1 = [] := by decide
+
+/-- the last operand of a `Join` may fail: the values are truncated there -/
+def ex2 : Op :=
+  .pipe true (.join (.slice [1, 2]) [.gen [.val 3, .skip, .val 4],
+    .map {add := 1, inj := [(1, .err 3)]} (.slice [5, 6, 7])])
+
+example : NoInnerFailure ex2 = true := by decide
+example : denote ex2 = [.val 1, .val 2, .val 3, .val 4, .val 6, .eof] := by decide
+example : spec ex2 = ([1, 2, 3, 4, 6], true) := by decide
+example : closeErrs (.map {add := 1, inj := [(1, .err 3)]} (.slice [5, 6, 7])) = [3] := by decide
+example : injErrs ex2 = [3] := by decide
+
+/-- the hypothesis of the agreement theorem fails for the deviation witness -/
+example : NoInnerFailure
+    (.join (.map {mul := 10, inj := [(1, .err 7)]} (.slice [1, 2, 3])) [.slice [7, 8]]) = false := by
+  decide
+
+/-- `abort`/`ctx` end a `Join` (the next operand is NOT read) but not a `Chain` -/
+example : denote (.join (.gen [.val 1, .abort]) [.slice [7]]) = [.val 1, .abort] := by decide
+example : denote (.chain [.gen [.val 1, .abort], .slice [7]]) = [.val 1, .val 7, .eof] := by decide
+
+example : reduceGo {inj := [(2, .err 9)]} 0 0 (denote ex1) = (6, some 9) := by decide
+example : countS (denote ex1) = 4 := by decide
 
 end FunModel.C02
